@@ -3,6 +3,7 @@
 //! usage: vharness <family> --model <rfsm_model> --out <report.json> [--tier quick|thorough]
 //!                 [--seed N] [--replay file]
 mod c19;
+mod codec;
 mod obs;
 mod prng;
 mod proto;
@@ -72,6 +73,7 @@ fn main() {
     let mut model = proto::Model::spawn(&args.model);
     let mut rep = match args.family.as_str() {
         "c19" => c19::run(&args, &mut model),
+        "c05" | "c18" => codec::run(&args, &mut model),
         f => {
             eprintln!("unknown family {}", f);
             std::process::exit(2);
